@@ -23,6 +23,8 @@ def _sync(op, obj, **kw):
         return False
     r = k.point(op, obj, **kw)
     k.sync_ops += 1
+    if k.fault_hook is not None:
+        k.fault_hook(k.current(), op, obj)      # may raise inside the calling task (fault injection)
     return r
 
 
